@@ -101,16 +101,65 @@ UPDATE_FORMS = ['ufg1', 'ufg2', 'ufh1', 'ufh2', 'ugv1', 'ugv2', 'ufpp1', 'ufpp2'
 FORMATS = ['csr', 'csc', 'coo', 'bsr', 'mlb']
 
 
+def kv_p(spec):
+    return spec[0]
+
+
+def kv_knots(spec):
+    """the knot list of a spec: [p, n, m] = open knot vector over n uniform spans with interior multiplicity m,
+    or [p, [explicit knots]]"""
+    if isinstance(spec[1], list):
+        return list(spec[1])
+    p, n, m = spec
+    return [0.0] * (p + 1) + [i / n for i in range(1, n) for _ in range(m)] + [1.0] * (p + 1)
+
+
+def kv_numdofs(spec):
+    return len(kv_knots(spec)) - spec[0] - 1
+
+
+def kv_spans(spec):
+    return len(set(kv_knots(spec))) - 1
+
+
+def open_knots(p, breaks, mults):
+    """open knot vector of degree p: interior breakpoint breaks[k] repeated mults[k] times"""
+    return [0.0] * (p + 1) + [b for b, m in zip(breaks, mults) for _ in range(m)] + [1.0] * (p + 1)
+
+
 def rand_kv(rng, small, dim=2):
     p = rng.choice([1, 2, 2, 3]) if not small else rng.choice([1, 2])
     n = rng.randint(1, 3) if small else (rng.randint(2, 5) if dim > 1 else rng.randint(8, 20))
+    if rng.random() < 0.4 and n >= 2 and p >= 2:
+        # non-uniform placement of repeated interior knots (reduced continuity at SOME breakpoints), uneven mesh
+        den = 2 * n
+        pts = sorted(rng.sample(range(1, den), n - 1))
+        return [p, open_knots(p, [k / den for k in pts], [rng.choice([1, 1, 2, p]) if p > 1 else 1 for _ in pts])]
     m = rng.randint(1, p) if rng.random() < 0.3 else 1
     return [p, n, m]
 
 
-def kv_numdofs(spec):
-    p, n, m = spec
-    return p + 1 + (n - 1) * m
+def level_pattern(spec):
+    """harness-side oracle for the per-direction sparsity pattern: B-splines i, j of the knot vector have
+    joint support of positive length (support of i = [t_i, t_{i+p+1}])"""
+    t = kv_knots(spec)
+    p = spec[0]
+    n = len(t) - p - 1
+    return [(i, j) for i in range(n) for j in range(n) if max(t[i], t[j]) < min(t[i + p + 1], t[j + p + 1])]
+
+
+def kron_pattern(specs):
+    """pattern of the tensor-product space in the order of MLStructure.nonzero (last direction fastest)"""
+    pats = [level_pattern(s) for s in specs]
+    dims = [kv_numdofs(s) for s in specs]
+    out = []
+    for sel in itertools.product(*pats):
+        I = J = 0
+        for (i, j), n in zip(sel, dims):
+            I = I * n + i
+            J = J * n + j
+        out.append((I, J))
+    return out
 
 
 def gen_cases(ctx):
@@ -118,14 +167,16 @@ def gen_cases(ctx):
     thorough = ctx.tier == 'thorough'
     cases = []
 
-    def add(form, dim, geo, small, vec, symmetric_form, custom=None, bbox=False):
-        while True:
+    def add(form, dim, geo, small, vec, symmetric_form, custom=None, bbox=False, kvs=None, family=None):
+        while kvs is None:
             kvs = [rand_kv(rng, small, dim) for _ in range(dim)]
             nd = prod(kv_numdofs(k) for k in kvs)
             if small and nd <= (14 if vec else 30) and nd >= 3:
                 break
-            if not small and (20 if dim > 1 else 8) <= nd <= (140 if vec else 400):
+            if not small and (20 if dim > 1 else 8) <= nd <= (90 if vec else 250):
                 break
+            kvs = None
+        nd = prod(kv_numdofs(k) for k in kvs)
         c = {'id': '%s-%dd-%d' % (custom or form, dim, len(cases)), 'form': 'custom' if custom else form, 'kvs': kvs,
              'geo': geo, 'small': small, 'vec': vec, 'symmetric_form': symmetric_form, 'name': custom or form}
         if custom:
@@ -151,6 +202,9 @@ def gen_cases(ctx):
                     cfgs.append([sym, fmt, lay])
         if custom and CUSTOM[custom].get('light'):
             cfgs = [[False, 'csr', 'blocked'], [False, 'csc', 'blocked']]
+        if family is not None:
+            c['family'] = family
+            cfgs = [cf for cf in cfgs if cf[1] in ('csr', 'bsr')]
         c['configs'] = cfgs
         # arbitrary index subsets: in-pattern, out-of-pattern, repeated, unsorted
         subs = []
@@ -166,12 +220,13 @@ def gen_cases(ctx):
             bbs = []
             for _ in range(3):
                 bb = []
-                for (p, n, m) in kvs:
+                for sp in kvs:
+                    n = kv_spans(sp)
                     a = rng.randint(0, n - 1)
                     b = rng.randint(a + 1, n)
                     bb.append([a, b])
                 bbs.append(bb)
-            bbs.append([[0, n] for (p, n, m) in kvs])
+            bbs.append([[0, kv_spans(sp)] for sp in kvs])
             c['bbox'] = bbs
         cases.append(c)
 
@@ -202,6 +257,31 @@ def gen_cases(ctx):
             d = CUSTOM[name]['dim']
             add(None, d, rng.choice(['qa', 'unit']) if d == 2 else 'line', bool(rng.getrandbits(1)), False,
                 CUSTOM[name]['symmetric'], custom=name)
+        # families of spaces assembled one after the other IN ONE PROCESS: same degree, same breakpoints, same
+        # number of dofs, the repeated interior knot at different breakpoints; then refined, coarsened, and the
+        # first space again (anything remembered from an earlier space must not leak into a later one)
+        fam = [('mass', 2, 'qa', False, True, None), ('stiff', 2, 'unit', False, True, None),
+               ('divdiv', 2, 'qa', True, True, None), (None, 1, 'line', False, True, 'c1d'),
+               (None, 2, 'unit', True, False, 'c2d23'), ('heat', 3, 'unit', False, False, None)]
+        for fk, (form, dim, geo, vec, symf, custom) in enumerate(fam):
+            p = rng.choice([2, 3]) if not vec else 2
+            nb = rng.choice([4, 6]) if dim < 3 and not vec else 4
+            axis = rng.randrange(dim)
+            others = [[rng.choice([1, 2]), rng.randint(1, 2), 1] for _ in range(dim)]
+            brk = [k / nb for k in range(1, nb)]
+            pos = rng.sample(range(nb - 1), 2)
+            mult = rng.randint(2, p)
+            variants = []
+            for a in pos:
+                variants.append([p, open_knots(p, brk, [mult if k == a else 1 for k in range(nb - 1)])])
+            variants.append([p, open_knots(p, [k / (2 * nb) for k in range(1, 2 * nb)], [1] * (2 * nb - 1))])   # refined
+            variants.append([p, open_knots(p, brk[1::2], [1] * len(brk[1::2]))])                                 # coarsened
+            variants.append(variants[0])                                                                         # the first space again
+            variants.append([p, open_knots(p, brk, [mult if k == pos[1] else 1 for k in range(nb - 1)])])
+            for v in variants:
+                kk = [list(o) for o in others]
+                kk[axis] = v
+                add(form, dim, geo, False, vec, symf, custom=custom, kvs=kk, family=fk)
     if thorough:
         add(None, 3, 'unit', True, True, False, custom='c3d22')
         add(None, 3, 'twisted', False, True, False, custom='c3d22')
@@ -228,7 +308,7 @@ def vform_cache_dir(ctx):
 
 
 def strip_case(c):
-    return {k: v for k, v in c.items() if k not in ('small', 'vec', 'symmetric_form', 'name')}
+    return {k: v for k, v in c.items() if k not in ('small', 'vec', 'symmetric_form', 'name', '_history')}
 
 
 # ---------------------------------------------------------------------------
@@ -236,28 +316,39 @@ def strip_case(c):
 # ---------------------------------------------------------------------------
 
 class Ref:
-    """Reference operator built from the entries/blocks over the full pattern."""
+    """Reference operator built from asm.multi_entries / multi_blocks over ALL index pairs (no sparsity
+    structure of the implementation enters); P is the harness-side support pattern of the space."""
 
     def __init__(self, case, res):
         info = res['info']
         self.info = info
         self.vec = info['vec']
         self.M, self.N = info['shape']
-        self.P = list(zip(*info['P']))
+        self.P_impl = list(zip(*info['P']))
+        self.P = kron_pattern(case['kvs'])
         if self.vec:
             nc0, nc1 = info['numcomp']
             self.nr, self.ncl = nc1, nc0       # rows = test components, columns = trial components
-            vals, shp = dec(res['arr']['blocks_full'])
-            sz = self.nr * self.ncl
-            assert len(vals) == len(self.P) * sz
-            self.blocks = {pq: vals[k * sz:(k + 1) * sz] for k, pq in enumerate(self.P)}
-            self.scale = max([abs(v) for v in vals] + [0.0])
+            vals, shp = dec(res['arr']['blocks_dense'])
         else:
             self.nr = self.ncl = 1
-            vals, shp = dec(res['arr']['entries_full'])
-            assert len(vals) == len(self.P)
-            self.blocks = {pq: [v] for pq, v in zip(self.P, vals)}
-            self.scale = max([abs(v) for v in vals] + [0.0])
+            vals, shp = dec(res['arr']['entries_dense'])
+        sz = self.nr * self.ncl
+        assert len(vals) == self.M * self.N * sz
+        self.blocks = {}
+        inP = set(self.P)
+        self.outside = None         # a non-zero entry outside the support pattern
+        for I in range(self.M):
+            base = I * self.N
+            for J in range(self.N):
+                b = vals[(base + J) * sz:(base + J + 1) * sz]
+                if (I, J) in inP:
+                    self.blocks[(I, J)] = b
+                elif any(v != 0.0 for v in b):
+                    self.blocks[(I, J)] = b
+                    if self.outside is None:
+                        self.outside = (I, J)
+        self.scale = max([abs(v) for v in vals] + [0.0])
 
     def get(self, I, J, r=0, c=0):
         b = self.blocks.get((I, J))
@@ -306,13 +397,14 @@ def maxdiff(A, flat, shape):
 # ---------------------------------------------------------------------------
 
 HEADER = '''From Coq Require Import ZArith List Bool Arith.
-From Verif.C08 Require Import Model.
+From Verif.C08 Require Import Model CaseLib.
 Import ListNotations.
 Open Scope Z_scope.
 Definition T := list ((Z * Z) * Z).
 Definition zden (t : T) (q : Z * Z) : Z := den 0 Z.add t q.
 Definition sub_ok (a b : T) : bool := forallb (fun t : (Z * Z) * Z => (snd t =? 0) || (zden b (fst t) =? snd t)) a.
-Definition same (a b : T) : bool := sub_ok a b && sub_ok b a.
+(* fast path: equal sorted non-zero triples (CaseLib.same_sorted_sound); otherwise the coordinate-wise comparison *)
+Definition same (a b : T) : bool := same_sorted a b || (sub_ok a b && sub_ok b a).
 Fixpoint zl_eqb (a b : list Z) : bool :=
   match a, b with [], [] => true | x :: a', y :: b' => (x =? y) && zl_eqb a' b' | _, _ => false end.
 Fixpoint nl_eqb (a b : list nat) : bool :=
@@ -527,8 +619,11 @@ def check_property_on_impl(ctx, case, res, stats):
                        '%s raised %s for form %s, kvs (p,spans,mult)=%s' % (key, s, case.get('expr', case['name']), case['kvs']),
                        {'case': strip_case(case), 'output': key, 'error': s,
                         'how': 'assemble_entries(asm, symmetric, format, layout) / multi_blocks / generic core as named by `output`'})
-    need = 'blocks_full' if res['info']['vec'] else 'entries_full'
+    need = 'blocks_dense' if res['info']['vec'] else 'entries_dense'
     if st.get(need) != 'Ok':
+        return
+    if res['info'].get('ndofs') != [kv_numdofs(k) for k in case['kvs']]:
+        ctx.broken.append('harness knot-vector expansion disagrees with the implementation on numdofs: %s' % case['kvs'])
         return
     try:
         ref = Ref(case, res)
@@ -540,6 +635,20 @@ def check_property_on_impl(ctx, case, res, stats):
     tol = bound_for(res['info'], ref.scale)
     stats['bound_max'] = max(stats['bound_max'], tol)
     arr = res['arr']
+    hist = case.get('_history') or []
+    # the sparsity structure the assembly fills in must be the support pattern of THIS space (exact)
+    if sorted(ref.P_impl) != sorted(ref.P):
+        miss = sorted(set(ref.P) - set(ref.P_impl))[:5]
+        extra = sorted(set(ref.P_impl) - set(ref.P))[:5]
+        ctx.report('impl:pattern:%s' % case['name'],
+                   'MLStructure.from_kvs(kvs).nonzero() is not the joint-support pattern of the space %s: missing %s, extra %s '
+                   '(spaces assembled earlier in this process: %s)' % (case['kvs'], miss, extra, [h['kvs'] for h in hist][-3:]),
+                   {'case': strip_case(case), 'missing': miss, 'extra': extra, 'process_history': hist,
+                    'how': 'in ONE process assemble the cases of process_history in order, then this case'})
+    if ref.outside is not None:
+        ctx.report('impl:entry-outside-support:%s' % case['name'],
+                   'entry/block %s is non-zero although the basis functions have no joint support' % (ref.outside,),
+                   {'case': strip_case(case), 'pair': ref.outside, 'process_history': hist})
 
     def cmp_dense(key, A, what):
         flat, shp = dec(arr[key])
@@ -555,7 +664,8 @@ def check_property_on_impl(ctx, case, res, stats):
             ctx.report('impl:%s:%s' % (what, case['name']),
                        '%s differs from the operator given by the entries over the full pattern by %.3e at %s (bound %.3e)' % (
                            key, worst, where, tol),
-                       {'case': strip_case(case), 'output': key, 'where': where, 'deviation': worst, 'bound': tol})
+                       {'case': strip_case(case), 'output': key, 'where': where, 'deviation': worst, 'bound': tol,
+                        'process_history': case.get('_history') or []})
 
     dense_cache = {}
     for (sym, fmt, lay) in case['configs']:
@@ -596,6 +706,10 @@ def check_property_on_impl(ctx, case, res, stats):
                 cmp_list(key, exp, 'subset-blocks', {'indices': sub})
         if st.get('blocks_full') == 'Ok' and 'blocks_full_again' in arr:
             cmp_list('blocks_full_again', dec(arr['blocks_full'])[0], 'reuse')
+            exp = []
+            for (i, j) in ref.P_impl:
+                exp += ref.block_get(i, j)
+            cmp_list('blocks_full', exp, 'subset-blocks')
         # generic core data vs blocks (shape MU.. x nc0*nc1 in pattern order)
     else:
         for k, sub in enumerate(case.get('subsets') or []):
@@ -606,6 +720,7 @@ def check_property_on_impl(ctx, case, res, stats):
             cmp_list('single', [ref.get(i, j) for (i, j) in case['single']], 'entry', {'indices': case['single']})
         if 'entries_full_again' in arr:
             cmp_list('entries_full_again', dec(arr['entries_full'])[0], 'reuse')
+            cmp_list('entries_full', [ref.get(i, j) for (i, j) in ref.P_impl], 'subset-entries')
         if st.get('rows') == 'Ok':
             I, J = res['info']['rows_IJ']
             # exact: the pattern restricted to the requested rows, in request order
@@ -660,7 +775,7 @@ def check_property_on_impl(ctx, case, res, stats):
 
 
 def run(ctx):
-    ok1 = ctx.obligations_stage(PROPS, extra_targets=['C08/Examples.vo'])
+    ok1 = ctx.obligations_stage(PROPS, extra_targets=['C08/Examples.vo', 'C08/CaseLib.vo'])
     ctx.assumptions += [
         'model: hand transcription of chunk_tasks, the thread-pool split of multi_entries/multi_blocks, '
         'generic_assemble_core_vec_{1,2,3}d + kernel (skip rule, mirrored writes), get_transpose_idx_for_bidx, '
@@ -712,6 +827,10 @@ def run(ctx):
         for k, r in zip(groups[g], part['results']):
             merged[k] = r
     r1 = {'results': merged, 'chunks': parts[0]['chunks'], 'transp': parts[0]['transp']}
+    for g in range(NG):      # what the same driver process assembled before each case
+        for pos, k in enumerate(groups[g]):
+            cases[k]['_history'] = [{'id': cases[j]['id'], 'form': cases[j].get('expr', cases[j]['name']), 'kvs': cases[j]['kvs'],
+                                     'geo': cases[j]['geo']} for j in groups[g][:pos] if cases[j]['name'] == cases[k]['name']]
     log('[C08] 1-thread reference run %.1fs' % (time.time() - t0))
     results = r1['results']
 
@@ -719,16 +838,44 @@ def run(ctx):
     tcounts = list(range(2, 17)) if thorough else [2, 3, 4, 7, 16]
     reps = 2 if thorough else 1
 
+    tcases = [k for k, c in enumerate(cases) if 'family' not in c]      # families are about histories, not threads
+
     def one(n):
-        p = {'cases': [strip_case(c) for c in cases], 'threads': n, 'mode': 'digest'}
-        return n, ctx.impl.run(DRIVER, p, timeout=2400, xdg=xdg)
-    jobs = [n for n in tcounts for _ in range(reps)]
+        if n == 'history':
+            # ONE fresh 1-thread process assembling all cases in the REVERSE order: every output must be
+            # bitwise what the reference processes produced after a different history
+            order = list(range(len(cases)))[::-1]
+            p = {'cases': [strip_case(cases[k]) for k in order], 'threads': 1, 'mode': 'digest'}
+            return n, order, ctx.impl.run(DRIVER, p, timeout=2400, xdg=xdg)
+        p = {'cases': [strip_case(cases[k]) for k in tcases], 'threads': n, 'mode': 'digest'}
+        return n, tcases, ctx.impl.run(DRIVER, p, timeout=2400, xdg=xdg)
+    jobs = ['history'] + [n for n in tcounts for _ in range(reps)]
     with ThreadPoolExecutor(max_workers=4) as ex:
-        tres = list(ex.map(one, jobs))
-    log('[C08] %d thread-count runs done at %.1fs' % (len(jobs), time.time() - t0))
+        allres = list(ex.map(one, jobs))
+    log('[C08] %d thread-count runs + 1 reversed-history run done at %.1fs' % (len(jobs) - 1, time.time() - t0))
+    nhist_cmp = 0
+    for n, order, rn in allres:
+        if n != 'history':
+            continue
+        for k, b in zip(order, rn['results']):
+            case, a = cases[k], results[k]
+            for key, d in a['dig'].items():
+                if key not in b['dig']:
+                    continue
+                nhist_cmp += 1
+                if b['dig'][key] != d:
+                    kind = 'core' if key.startswith('core') else ('matrix' if key.startswith('A-') else 'entries')
+                    after = [{'id': cases[j]['id'], 'kvs': cases[j]['kvs']} for j in order[:order.index(k)] if cases[j]['name'] == case['name']]
+                    ctx.report('impl:history:%s:%s' % (kind, case['name']),
+                               'output %s of %s depends on what the process assembled before: after %s it differs bitwise from the '
+                               'result after %s' % (key, case['id'], [h['id'] for h in after][-3:], [h['id'] for h in case.get('_history') or []][-3:]),
+                               {'case': strip_case(case), 'output': key, 'history_1': case.get('_history') or [], 'history_2': after,
+                                'how': 'one process, pyiga.set_max_threads(1): assemble the cases of history_k in order, then this case'})
+    ctx.cov['bitwise_comparisons_across_histories'] = nhist_cmp
+    tres = [(n, order, rn) for (n, order, rn) in allres if n != 'history']
     nthread_cmp = 0
-    for n, rn in tres:
-        for case, a, b in zip(cases, results, rn['results']):
+    for n, order, rn in tres:
+        for case, a, b in zip([cases[k] for k in order], [results[k] for k in order], rn['results']):
             for key, d in a['dig'].items():
                 if key not in b['dig']:
                     if key.startswith(('upd', 'fresh')):
